@@ -426,6 +426,39 @@ int main(void)
 			memcpy(tmp, ((const uint8_t *) (arr->_buf + 1)) + a * e, e);
 			RES_PTR(mpt_array_set(arr, arr->_buf->_content_traits, e, tmp, (long) a));
 		}
+		else if (!strcmp(op, "identcheck") && drv_nw == 4) {
+			/* arrays of identifiers (mpt_identifier_traits: names up to 11 bytes live in the element, longer ones on the
+			 * heap): set from sources, shared + private copy, replace, cut, release; every copy must read the name of its
+			 * source and every heap name is released exactly once (checked by the sanitizers and the heap count at the end) */
+			const MPT_STRUCT(type_traits) *t = mpt_identifier_traits();
+			MPT_STRUCT(identifier) src[3];
+			MPT_STRUCT(array) x = MPT_ARRAY_INIT, y = MPT_ARRAY_INIT;
+			char *name;
+			int bad = 0;
+			(void) h;
+			if (drv_parse_nat(drv_w[3], &a) || a > 1000) BAD;
+			name = malloc(a + 3);
+			memset(name, 'i', a + 2); name[a + 2] = 0;
+			for (int i = 0; i < 3; i++) { mpt_identifier_init(&src[i], sizeof(src[i])); if (!mpt_identifier_set(&src[i], name, (int) (a + i))) bad = 1; }
+			if (!mpt_array_set(&x, t, sizeof(src), src, 0)) bad = 2;
+			else {
+				mpt_array_clone(&y, &x);
+				if (!mpt_array_slice(&y, 0, y._buf->_used)) bad = 3;                 /* private copy of all three */
+				else if (!mpt_array_set(&y, t, sizeof(src[0]), &src[2], 0)) bad = 4;  /* element 0 replaced */
+				else if (mpt_buffer_cut(y._buf, sizeof(src[0]), sizeof(src[0])) < 0) bad = 5;
+				else {
+					const MPT_STRUCT(identifier) *ex = (void *) (x._buf + 1), *ey = (void *) (y._buf + 1);
+					for (int i = 0; i < 3; i++) if (mpt_identifier_inequal(&ex[i], &src[i])) bad = 6;
+					if (y._buf->_used != 2 * sizeof(src[0]) || mpt_identifier_inequal(&ey[0], &src[2]) || mpt_identifier_inequal(&ey[1], &src[2])) bad = 7;
+				}
+			}
+			mpt_array_clone(&x, 0);
+			mpt_array_clone(&y, 0);
+			for (int i = 0; i < 3; i++) mpt_identifier_set(&src[i], 0, 0);
+			free(name);
+			if (bad) mark_illegal("ident", (unsigned) bad);
+			RES("ok", "-");
+		}
 		else if (!strcmp(op, "selfrot") && drv_nw == 4) {
 			/* the whole content is written back rotated by k elements: every source element is a second pointer to a
 			 * referent whose only owner may be one of the replaced elements (the source is a copy of the element bytes) */
